@@ -10,7 +10,9 @@ import (
 	"fmt"
 	"os"
 	"regexp"
+	"runtime"
 	"strings"
+	"sync"
 	"syscall"
 	"time"
 
@@ -33,6 +35,7 @@ type Replay struct {
 	Notes     []string `json:"notes,omitempty"`
 	Trace     []string `json:"trace,omitempty"`
 	Race      bool     `json:"race,omitempty"` // needs the race-detector build to reproduce
+	Hang      bool     `json:"hang,omitempty"` // the violation is that the run never finishes
 }
 
 type WorkerResult struct {
@@ -51,6 +54,76 @@ type WorkerResult struct {
 	WallS       float64        `json:"wall_s"`
 	FirstSeed   uint64         `json:"first_seed"`
 	LastSeed    uint64         `json:"last_seed"`
+}
+
+// ---- watchdog: a run that spins without ever finishing (a tight loop inside
+// sonic that never enters the kernel cannot be unwound) is reported with the
+// stack of the main goroutine; origin sonic => violation, otherwise harness.
+type runInfo struct {
+	prop, scenario string
+	variant        int
+	seed           uint64
+	thorough       bool
+	tape           []uint32
+	started        time.Time
+	active         bool
+}
+
+var (
+	curRunMu sync.Mutex
+	curRun   runInfo
+	onHang   func(info runInfo, origin, site, stack string)
+)
+
+func startWatchdog(limit time.Duration) {
+	go func() {
+		for {
+			time.Sleep(time.Second)
+			curRunMu.Lock()
+			ri := curRun
+			curRunMu.Unlock()
+			if !ri.active || time.Since(ri.started) < limit {
+				continue
+			}
+			buf := make([]byte, 1<<20)
+			n := runtime.Stack(buf, true)
+			stack := string(buf[:n])
+			origin, site := hangOrigin(stack)
+			if onHang != nil {
+				onHang(ri, origin, site, stack)
+			}
+			os.Exit(4)
+		}
+	}()
+}
+
+// hangOrigin looks at the main goroutine's stack (the one running the scenario).
+func hangOrigin(stack string) (origin, site string) {
+	for _, g := range strings.Split(stack, "\n\n") {
+		if !strings.Contains(g, "sonicverif/scen.RunOne") {
+			continue
+		}
+		for _, l := range strings.Split(g, "\n") {
+			if strings.HasPrefix(l, "\t") || strings.HasPrefix(l, "goroutine ") || strings.HasPrefix(l, "runtime.") || strings.HasPrefix(l, "syscall.") {
+				continue
+			}
+			if strings.HasPrefix(l, "sonicverif/shim/") || strings.HasPrefix(l, "sonicverif/sim.") {
+				continue
+			}
+			if strings.HasPrefix(l, "github.com/talostrading/sonic") {
+				fn := l
+				if i := strings.LastIndex(fn, "("); i > 0 {
+					fn = fn[:i]
+				}
+				fn = strings.NewReplacer("(", "", ")", "", "*", "").Replace(fn)
+				return "sonic", strings.Trim(strings.TrimPrefix(fn, "github.com/talostrading/sonic"), "/.")
+			}
+			if strings.HasPrefix(l, "sonicverif/") {
+				return "harness", ""
+			}
+		}
+	}
+	return "harness", ""
 }
 
 var raceLog *os.File
@@ -87,7 +160,13 @@ var sonicFrame = regexp.MustCompile(`github\.com/talostrading/sonic(?:/[A-Za-z0-
 // report that appeared during it into a failure of the run.
 func run(prop string, sc *scen.Scenario, variant int, seed uint64, replay []uint32, trace, thorough bool, known func(string) bool, avoid map[string]bool) scen.Outcome {
 	before := raceErrors()
+	curRunMu.Lock()
+	curRun = runInfo{prop: prop, scenario: sc.Name, variant: variant, seed: seed, thorough: thorough, tape: replay, started: time.Now(), active: true}
+	curRunMu.Unlock()
 	o := scen.RunOne(prop, sc, variant, seed, replay, trace, thorough, known, avoid)
+	curRunMu.Lock()
+	curRun.active = false
+	curRunMu.Unlock()
 	if raceErrors() > before && o.Harness == "" {
 		report := ""
 		if raceLog != nil {
@@ -148,6 +227,7 @@ func main() {
 	replayDir := flag.String("replaydir", "/verif/replays", "where replay files go")
 	minBudget := flag.Float64("minimise", 30, "minimisation budget in seconds")
 	raceLogPath := flag.String("racelog", "", "race build: file that receives the detector's reports")
+	hangS := flag.Float64("hang", 25, "seconds after which a single run counts as hung")
 	list := flag.Bool("list", false, "list properties and scenarios")
 	flag.Parse()
 
@@ -168,6 +248,19 @@ func main() {
 	}
 
 	if *replayPath != "" {
+		onHang = func(ri runInfo, origin, site, stack string) {
+			sig := ri.prop + "/hang/" + site
+			fmt.Printf("REPLAY violation signature=%s\n  the run never finished (origin %s)\n", sig, origin)
+			if b, err := os.ReadFile(*replayPath); err == nil {
+				var rp Replay
+				if json.Unmarshal(b, &rp) == nil && rp.Hang && rp.Signature == sig {
+					fmt.Println("REPLAY reproduced exactly")
+					os.Exit(1)
+				}
+			}
+			os.Exit(3)
+		}
+		startWatchdog(time.Duration(*hangS * float64(time.Second)))
 		os.Exit(doReplay(*replayPath, kff))
 	}
 
@@ -181,6 +274,33 @@ func main() {
 	}
 	res := &WorkerResult{Worker: *worker, Stats: map[string]int{}, ByScenario: map[string]int{}, KnownHits: map[string]int{}}
 	start := time.Now()
+	onHang = func(ri runInfo, origin, site, stack string) {
+		if len(stack) > 6000 {
+			stack = stack[:6000]
+		}
+		if origin == "sonic" {
+			os.MkdirAll(*replayDir, 0o755)
+			path := fmt.Sprintf("%s/%s-%d-w%d-hang.json", *replayDir, *prop, *seed, *worker)
+			rp := Replay{Property: ri.prop, Scenario: ri.scenario, Variant: ri.variant, Seed: ri.seed, Thorough: ri.thorough, Tape: ri.tape,
+				Signature: ri.prop + "/hang/" + site, Hang: true,
+				Message: "the run never finished: the loop goroutine spins inside sonic without completing (stack of the goroutine below)\n" + stack}
+			js, _ := json.MarshalIndent(rp, "", " ")
+			os.WriteFile(path, js, 0o644)
+			res.Violations = append(res.Violations, path)
+		} else {
+			res.Harness = append(res.Harness, fmt.Sprintf("scenario=%s variant=%d seed=%d: run hung in harness code\n%s", ri.scenario, ri.variant, ri.seed, stack))
+		}
+		res.WallS = time.Since(start).Seconds()
+		if *out != "" {
+			js, _ := json.Marshal(res)
+			os.WriteFile(*out, js, 0o644)
+		}
+		if origin == "sonic" {
+			os.Exit(1)
+		}
+		os.Exit(2)
+	}
+	startWatchdog(time.Duration(*hangS * float64(time.Second)))
 	names := sim.StatNames()
 	hashes := make([]uint64, 0, 1<<16)
 	reported := map[string]bool{}
